@@ -1038,7 +1038,13 @@ fn circuit_case(env: &Env, family: &'static str, index: u64, r: &mut Rng, circ: 
             args.extend(cfg.args());
             args.extend(query.args());
             if cfg.out {
-                let _ = std::fs::remove_file(&outfile_p);
+                // the output file is either absent or already there with older, longer content
+                if calls % 2 == 0 {
+                    let _ = std::fs::remove_file(&outfile_p);
+                } else {
+                    let _ = std::fs::write(&outfile_p, "0.123456789012345678901234567890 stale line of an earlier result\n".repeat(40));
+                    c.count("cli:-o-over-an-existing-file", 1);
+                }
                 args.push("-o".into());
                 args.push(outfile_p.clone().into());
             }
